@@ -153,7 +153,7 @@ theorem pl6_succ (f : Nat) (ih : PAll6 W f) : PL6 W (f + 1) := by
           below fr hsc hinv1' hwt2 hcb hext
         simp only
         rcases ihb with ihb | ihb
-        · exact .inl (SimF.Fails.after (n + 1 + 1) hp ihb)
+        · exact .inl (SimF.Ovf.after (n + 1 + 1) hp ihb)
         cases hrb : evalBV f b { st1 with last := acc } with
         | val w st2 =>
           rw [hrb] at ihb
